@@ -8,7 +8,6 @@
 import Kvass.Model.Loop
 import Kvass.Spec.Loop
 import Kvass.Spec.Sidecar
-import Kvass.Proofs.CoordQuiet
 import Kvass.Driver.Coord
 import Kvass.Driver.Sidecar
 
